@@ -1,6 +1,6 @@
 (* Properties_C05.v — C05: end of input is always detected; a truncated input yields only complete values.
    Only statements live here. *)
-Require Import Base Cbor DecoderModel DecoderProofs.
+Require Import Base Cbor DecoderModel DecoderProofs Schema Block Exporter E2ESpec BlockRead FileProofs TruncProofs.
 Local Open Scope N_scope.
 
 (* The physical decoder (window of any size B > 0 refilled from the stream, any window fill, any stream state
@@ -50,6 +50,20 @@ Print Assumptions C05_prefix.
 Theorem C05_suffix : forall (A : Type) (p : prog A) inp res r, run p inp = (res, r) -> exists c, inp = c ++ r.
 Proof. intros A p. exact (run_suffix p). Qed.
 Print Assumptions C05_suffix.
+
+(* FILES.  For every output [file_bytes pre bs] of the exporter (non-empty, within the ranges of the format, blocks satisfying the
+   builder's invariants) and EVERY cut point — the file split as q ++ t with t non-empty — the application's read loop (open, then
+   read_block until eof or an exception; [read_collect]) run on the prefix q returns exactly the blocks wholly contained in q
+   ([whole]: greedy count over the block lengths after the header; none if the header itself is cut), each equal to the block of the
+   full file, and then fails with the end-of-input error: no other error, no further block, nothing fabricated. *)
+Theorem C05_truncated_file : forall pre bs g q t, typed_pre pre -> bs <> [] -> Forall (readable pre) bs ->
+  (length (file_bytes pre bs) <= g)%nat -> file_bytes pre bs = q ++ t -> t <> [] ->
+  read_prefix g q =
+    (map rb_of (firstn (if (length (hdr_bytes pre) <=? length q)%nat
+                        then whole (map (fun b => length (blk_bytes b)) bs) (length q - length (hdr_bytes pre)) else 0%nat) bs),
+     inl EEnd).
+Proof. exact truncated_file. Qed.
+Print Assumptions C05_truncated_file.
 
 Example C05_nonvacuous :
   phys_inv 4 (mkPhys [] [] false) /\
